@@ -1,4 +1,6 @@
 -- property: C12
+-- assumes: P and Q are distinct primes; N^-1 mod phi is a true inverse (gcd(N, phi) = 1)
+-- assumes: modexp / modinv in the contracts are the textbook functions (A-NT)
 -- The recovered randomness re-encrypts to the same ciphertext. The contract of DecWithRandomness pins the VALUE of the
 -- nonce it returns:  r = ( c * (N+1)^(-m) mod N ) ^ (N^-1 mod phi) mod N   with m the decrypted plaintext.
 -- recovered_nonce: for distinct primes and a unit nonce rho this r is rho modulo N ((N+1)^(-m) is 1 modulo N; Euler's
